@@ -21,6 +21,10 @@ func YenKShortestPaths(g graph.Graph, k int, cost float64, s, t graph.Node) [][]
 	// See https://en.wikipedia.org/wiki/Yen's_algorithm and
 	// the paper at https://doi.org/10.1090%2Fqam%2F253822.
 
+	if k == 0 {
+		return nil
+	}
+
 	_, isDirected := g.(graph.Directed)
 	yk := yenKSPAdjuster{
 		Graph:      g,
